@@ -73,11 +73,15 @@ def run(ctx):
     chunks = [vectors[i::16] for i in range(16) if vectors[i::16]]
     payloads = [{"vectors": c} for c in chunks]
     # ---- histories of settings on one object (EphemSettings.tla) ------------------------------------------------------------
-    sconst = {"Orders": {2, 6, 11}, "Queries": {3, 15, 28} if thorough else {3, 15}, "MaxLen": 5 if thorough else 4, "FreezeAtFirstUse": False,
+    sconst = {"Orders": {2, 6, 11}, "Queries": {3, 15, 28} if thorough else {3, 15}, "MaxLen": 5 if thorough else 4, "FreezeAtFirstUse": False, "CopyResetsSettings": True,
               "Reprs": RawTla('{<<"EME2000", "cartesian">>, <<"EME2000", "keplerian">>, <<"TOD", "cartesian">>, <<"ITRF", "spherical">>}')}
     n4, mc4, cl4 = tlcmod.wrap("EphemSettings", sconst, name="MCEphemSettings")
     cfg4 = "SPECIFICATION Spec\n" + cl4 + "INVARIANT UsesCurrentSettings\nCHECK_DEADLOCK FALSE\n"
     r4 = ctx.tlc(n4, label="settings histories (contract)", cfg_text=cfg4, extra_files={n4 + ".tla": mc4}, workers=8, dump=True, dump_only=["hist"])
+    # expectation outside the listed properties: a copy interpolates as its source (TLC shows the code's copy() leaves it)
+    r4b = ctx.tlc(n4, label="settings histories (expectation: copies keep the settings)", cfg_text="SPECIFICATION Spec\n" + cl4 + "PROPERTY CopyKeepsSettings\nCHECK_DEADLOCK FALSE\n",
+                  extra_files={n4 + ".tla": mc4}, workers=8, expect_ok=False)
+    ctx.extra["finding_outside_the_list_copy_resets_interpolation_settings"] = r4b.violated == "CopyKeepsSettings"
     sconst["FreezeAtFirstUse"] = True
     n5, mc5, cl5 = tlcmod.wrap("EphemSettings", sconst, name="MCEphemSettingsFrozen")
     r5 = ctx.tlc(n5, label="settings histories (deviation: frozen at first use)", cfg_text="SPECIFICATION Spec\n" + cl5 + "INVARIANT UsesCurrentSettings\nCHECK_DEADLOCK FALSE\n",
